@@ -4,7 +4,7 @@
 (* and the run of its output (machine B) from the same run-time inputs.    *)
 (* Each contract returns "ok" or the name of the first clause that fails.  *)
 (***************************************************************************)
-EXTENDS Integers, Sequences, Accfg, Csr
+EXTENDS Integers, Sequences, Accfg, Csr, Bitwise
 
 IsPrefixLen(a, b) == Len(a) <= Len(b)
 
@@ -47,10 +47,23 @@ SameEffects(a, b) ==
   ELSE IF Len(a.log) # Len(b.log) THEN "EffectCount"
   ELSE "ok"
 
+(* ---- pack_bitlist (C19): the emitted shift/or tree computes OR_i (v_i << off_i) in w bits ---- *)
+RECURSIVE OrAll(_, _, _, _)
+OrAll(vals, offs, w, k) ==
+  IF k > Len(offs) THEN 0
+  ELSE ((((vals[k] % (2^w)) * (2^offs[k])) % (2^w)) | OrAll(vals, offs, w, k + 1))
+ToSigned(u, w) == IF u >= 2^(w - 1) THEN u - 2^w ELSE u
+PackBits(c, a, b) ==
+  IF b.fault # "none" THEN "B.fault:" \o b.fault
+  ELSE IF Len(b.log) < 1 \/ b.log[1].k # "op" THEN "NoPackedValue"
+  ELSE LET ev == b.log[1]  ins == SubSeq(ev.vals, 2, Len(ev.vals)) IN
+       IF ev.vals[1] = ToSigned(OrAll(ins, c.offs, c.w, 1), c.w) THEN "ok" ELSE "PackedWord"
+
 Judge(contract, c, a, b) ==
   IF a.fault # "none" THEN "skipA:" \o a.fault
   ELSE CASE contract \in {"dedup", "overlap", "trace"} -> AccfgObs(a, b)
          [] contract = "csr" -> CsrLowering(c, a, b)
          [] contract = "effects" -> SameEffects(a, b)
+         [] contract = "packbits" -> PackBits(c, a, b)
          [] OTHER -> "machinery:unknown-contract"
 =============================================================================
